@@ -3,7 +3,6 @@ package c13
 
 import (
 	"encoding/json"
-	"fmt"
 	"os"
 
 	"verif/core"
@@ -21,6 +20,21 @@ func init() {
 
 func run(r *core.Run) {
 	defer startProf()()
+	if os.Getenv("C13_ONLY") == "" || os.Getenv("C13_ONLY") == "regress" {
+		runRegress(r)
+	}
+	if os.Getenv("C13_ONLY") == "" || os.Getenv("C13_ONLY") == "shapes" {
+		runShapes(r)
+	}
+	if os.Getenv("C13_ONLY") == "" || os.Getenv("C13_ONLY") == "graphs" {
+		runGraphs(r)
+	}
+	if os.Getenv("C13_ONLY") == "" || os.Getenv("C13_ONLY") == "funcs" {
+		runFuncs(r)
+	}
+	if os.Getenv("C13_ONLY") != "" && os.Getenv("C13_ONLY") != "hist" {
+		return
+	}
 	kinds := allKinds()
 	if only := os.Getenv("C13_KIND"); only != "" {
 		var ks []*wkind
@@ -41,6 +55,45 @@ func replay(r *core.Run, raw json.RawMessage) {
 	}
 	json.Unmarshal(raw, &probe)
 	switch probe.Part {
+	case "shape", "catalogue":
+		var sc ShapeCase
+		if err := json.Unmarshal(raw, &sc); err != nil {
+			r.Violation("replay|bad-case", err.Error(), nil)
+			return
+		}
+		replayShape(r, &sc)
+	case "script":
+		var sr ScriptRegress
+		json.Unmarshal(raw, &sr)
+		for _, sc := range scriptCases() {
+			if sc.Name == sr.Name {
+				sc := sc
+				runScriptCase(r, &sc)
+			}
+		}
+	case "fatal":
+		var fr FatalRegress
+		json.Unmarshal(raw, &fr)
+		for _, fc := range fatalCases() {
+			if fc.Name == fr.Name {
+				fc := fc
+				runFatalCase(r, &fc)
+			}
+		}
+	case "func":
+		var fc FuncCase
+		if err := json.Unmarshal(raw, &fc); err != nil {
+			r.Violation("replay|bad-case", err.Error(), nil)
+			return
+		}
+		replayFunc(r, &fc)
+	case "graph":
+		var gc GraphCase
+		if err := json.Unmarshal(raw, &gc); err != nil {
+			r.Violation("replay|bad-case", err.Error(), nil)
+			return
+		}
+		replayGraph(r, &gc)
 	case "hist":
 		var hc HistCase
 		if err := json.Unmarshal(raw, &hc); err != nil {
@@ -52,33 +105,5 @@ func replay(r *core.Run, raw json.RawMessage) {
 }
 
 func replayHistory(r *core.Run, hc *HistCase) {
-	for _, wk := range allKinds() {
-		if wk.name != hc.Kind {
-			continue
-		}
-		var path []int
-		for _, n := range hc.Path {
-			found := -1
-			for i, o := range wk.ops {
-				if o.name == n {
-					found = i
-				}
-			}
-			if found < 0 {
-				r.Violation("replay|unknown-op", n, hc)
-				return
-			}
-			path = append(path, found)
-		}
-		c := compileKind(wk)
-		out := runHistory(c, wk, path, defects{}, true)
-		if out.fail != nil {
-			sig, what := classify(compileKind(wk), wk, path, out.fail)
-			r.Violation(sig, what, HistCase{Part: "hist", Kind: wk.name, Path: hc.Path, Failure: out.fail})
-		} else if out.skipped {
-			fmt.Println("replay: history is outside the model domain:", out.skipWhy)
-		}
-		return
-	}
-	r.Violation("replay|unknown-kind", hc.Kind, hc)
+	replayHistoryIn(r, allKinds(), nil, hc)
 }
